@@ -222,7 +222,7 @@ def conds(tier):
                        shard=["k1"] + (["k2"] if p >= 2 else []) + (["k3"] if p >= 3 else []),
                        timeout=600 if q else 3000, functions=FUNCS[:1]))
     # percentages that matter for rounding: numerals up to 100 with sizes up to 100 are covered by two dedicated conditions
-    cs.append(Cond("percent", "harness.c17:arith", [P("a1", "int", 0, 101), P("size", "int", 0, 64 if q else 201), P("sz8", "int", 0, 8)],
+    cs.append(Cond("percent", "harness.c17:arith", [P("a1", "int", 0, 101), P("size", "int", 0, 64 if q else 121), P("sz8", "int", 0, 8)],
                    fixed={"p": 2, "k1": 1, "k2": 2, "a2": 0}, pre=["size % 8 == sz8"], shard=["sz8"],
                    timeout=600 if q else 3000, functions=FUNCS[:1],
                    note="N%_rest for N in 0..100 and every treebank size up to the bound (rounding of percentages)"))
